@@ -505,48 +505,50 @@ theorem writeFile_evIn (env : Env) (base p : Str) (d : List Nat) (r : Run) (hp :
     · exact hadd
     · split <;> exact hadd
 
-theorem extractOne_evIn (env : Env) (cwd base : Str) (data : List Nat) (f : FileInfo) (st : Run × Nat)
+theorem extractOne_evIn (env : Env) (cwd base : Str) (data : List Nat) (w : Wanted) (nf : Nat × FileInfo) (st : Run × Nat)
     (habs : isAbs base = true) (hnorm : normpath base = base)
-    (hr : ∀ e ∈ st.1.evs, EvIn base e) : ∀ e ∈ (extractOne env cwd base data f st).1.evs, EvIn base e := by
+    (hr : ∀ e ∈ st.1.evs, EvIn base e) : ∀ e ∈ (extractOne env cwd base data w nf st).1.evs, EvIn base e := by
   obtain ⟨r, off⟩ := st
   unfold extractOne
   simp only
   split
   · exact hr
   · split
+    · exact hr
     · split
-      · exact hr
-      · rename_i p hp
-        have := safeJoin_inside cwd base f.filename p habs hnorm hp
-        exact mkdirs_evIn env base p r habs (Or.inl this.2) hr
-    · split
-      · exact hr
       · split
         · exact hr
         · rename_i p hp
-          have hin := safeJoin_inside cwd base f.filename p habs hnorm hp
-          apply writeFile_evIn _ _ _ _ _ hin
-          split
+          have := safeJoin_inside cwd base nf.2.filename p habs hnorm hp
+          exact mkdirs_evIn env base p r habs (Or.inl this.2) hr
+      · split
+        · exact hr
+        · split
           · exact hr
-          · exact mkdirs_evIn env base _ r habs (dirname_pathOk hin.2) hr
+          · rename_i p hp
+            have hin := safeJoin_inside cwd base nf.2.filename p habs hnorm hp
+            apply writeFile_evIn _ _ _ _ _ hin
+            split
+            · exact hr
+            · exact mkdirs_evIn env base _ r habs (dirname_pathOk hin.2) hr
 
-theorem extractFolder_evIn (env : Env) (cwd base : Str) (data : List Nat) (fs : List FileInfo) (r : Run)
+theorem extractFolder_evIn (env : Env) (cwd base : Str) (data : List Nat) (w : Wanted) (fs : List (Nat × FileInfo)) (r : Run)
     (habs : isAbs base = true) (hnorm : normpath base = base)
-    (hr : ∀ e ∈ r.evs, EvIn base e) : ∀ e ∈ (extractFolder env cwd base data fs r).evs, EvIn base e := by
+    (hr : ∀ e ∈ r.evs, EvIn base e) : ∀ e ∈ (extractFolder env cwd base data w fs r).evs, EvIn base e := by
   unfold extractFolder
   suffices h : ∀ (st : Run × Nat), (∀ e ∈ st.1.evs, EvIn base e) →
-      ∀ e ∈ (fs.foldl (fun st f => extractOne env cwd base data f st) st).1.evs, EvIn base e from h (r, 0) hr
+      ∀ e ∈ (fs.foldl (fun st nf => extractOne env cwd base data w nf st) st).1.evs, EvIn base e from h (r, 0) hr
   induction fs with
   | nil => intro st h; simpa using h
   | cons f fs ih =>
     intro st h
     simp only [List.foldl_cons]
-    exact ih _ (extractOne_evIn env cwd base data f st habs hnorm h)
+    exact ih _ (extractOne_evIn env cwd base data w f st habs hnorm h)
 
 theorem extractAll_evIn (env : Env) (cwd base : Str) (files : List FileInfo) (fmap : List (Nat × Nat))
-    (fd : List (Option (List Nat))) (k : Nat) (fl : List Nat) (r : Run)
+    (fd : List (Option (List Nat))) (w : Wanted) (k : Nat) (fl : List Nat) (r : Run)
     (habs : isAbs base = true) (hnorm : normpath base = base)
-    (hr : ∀ e ∈ r.evs, EvIn base e) : ∀ e ∈ (extractAll env cwd base files fmap fd k fl r).evs, EvIn base e := by
+    (hr : ∀ e ∈ r.evs, EvIn base e) : ∀ e ∈ (extractAll env cwd base files fmap fd w k fl r).evs, EvIn base e := by
   induction fl generalizing k r with
   | nil => simpa [extractAll] using hr
   | cons x rest ih =>
@@ -557,8 +559,10 @@ theorem extractAll_evIn (env : Env) (cwd base : Str) (files : List FileInfo) (fm
       split
       · exact ih _ _ hr
       · split
-        · exact hr
-        · exact ih _ _ (extractFolder_evIn env cwd base _ _ r habs hnorm hr)
+        · exact ih _ _ hr
+        · split
+          · exact hr
+          · exact ih _ _ (extractFolder_evIn env cwd base _ w _ r habs hnorm hr)
 
 theorem writeEmpty_evIn (env : Env) (cwd base : Str) (f : FileInfo) (r : Run)
     (habs : isAbs base = true) (hnorm : normpath base = base)
@@ -575,23 +579,23 @@ theorem writeEmpty_evIn (env : Env) (cwd base : Str) (f : FileInfo) (r : Run)
       · exact hr
       · exact mkdirs_evIn env base _ r habs (dirname_pathOk hin.2) hr
 
-theorem extractEmpties_evIn (env : Env) (cwd base : Str) (files : List FileInfo) (r : Run)
+theorem extractEmpties_evIn (env : Env) (cwd base : Str) (files : List FileInfo) (w : Wanted) (r : Run)
     (habs : isAbs base = true) (hnorm : normpath base = base)
-    (hr : ∀ e ∈ r.evs, EvIn base e) : ∀ e ∈ (extractEmpties env cwd base files r).evs, EvIn base e := by
+    (hr : ∀ e ∈ r.evs, EvIn base e) : ∀ e ∈ (extractEmpties env cwd base files w r).evs, EvIn base e := by
   unfold extractEmpties
-  generalize files.filter (·.emptyFile) = fl
+  generalize (indexed files 0).filter (fun nf => nf.2.emptyFile && isWanted w nf.1) = fl
   induction fl generalizing r with
   | nil => simpa using hr
   | cons f fl ih =>
     simp only [List.foldl_cons]
-    exact ih _ (writeEmpty_evIn env cwd base f r habs hnorm hr)
+    exact ih _ (writeEmpty_evIn env cwd base f.2 r habs hnorm hr)
 
 theorem extractAllFull_evIn (env : Env) (cwd base : Str) (files : List FileInfo) (fmap : List (Nat × Nat))
-    (fd : List (Option (List Nat))) (fl : List Nat) (r : Run)
+    (fd : List (Option (List Nat))) (fl : List Nat) (w : Wanted) (r : Run)
     (habs : isAbs base = true) (hnorm : normpath base = base)
-    (hr : ∀ e ∈ r.evs, EvIn base e) : ∀ e ∈ (extractAllFull env cwd base files fmap fd fl r).evs, EvIn base e := by
+    (hr : ∀ e ∈ r.evs, EvIn base e) : ∀ e ∈ (extractAllFull env cwd base files fmap fd fl w r).evs, EvIn base e := by
   unfold extractAllFull
-  exact extractEmpties_evIn env cwd base files _ habs hnorm (extractAll_evIn env cwd base files fmap fd 0 fl r habs hnorm hr)
+  exact extractEmpties_evIn env cwd base files w _ habs hnorm (extractAll_evIn env cwd base files fmap fd w 0 fl r habs hnorm hr)
 
 theorem readBack_evIn (env : Env) (lim : Limits) (cwd base : Str) (fs : Overlay) (f : FileInfo)
     (habs : isAbs base = true) (hnorm : normpath base = base) :
@@ -713,40 +717,42 @@ theorem writeFile_host (env : Env) (h' : Str → Option (Option (List Nat))) (ba
       nodeAt_host env h' base r.fs (dirname p) (pathOk_noHost (dirname_pathOk hp))]
 
 theorem extractOne_host (env : Env) (h' : Str → Option (Option (List Nat))) (cwd base : Str) (data : List Nat)
-    (f : FileInfo) (st : Run × Nat) (habs : isAbs base = true) (hnorm : normpath base = base) :
-    extractOne (withHost env h') cwd base data f st = extractOne env cwd base data f st := by
+    (w : Wanted) (nf : Nat × FileInfo) (st : Run × Nat) (habs : isAbs base = true) (hnorm : normpath base = base) :
+    extractOne (withHost env h') cwd base data w nf st = extractOne env cwd base data w nf st := by
   obtain ⟨r, off⟩ := st
   unfold extractOne
   simp only
   split
   · rfl
   · split
+    · rfl
     · split
-      · rfl
-      · rename_i p hp
-        have := safeJoin_inside cwd base f.filename p habs hnorm hp
-        rw [mkdirs_host env h' base p r (Or.inl this.2)]
-    · split
-      · rfl
       · split
         · rfl
         · rename_i p hp
-          have hin := safeJoin_inside cwd base f.filename p habs hnorm hp
-          rw [mkdirs_host env h' base _ r (dirname_pathOk hin.2)]
-          rw [writeFile_host env h' base p _ _ hin.2]
+          have := safeJoin_inside cwd base nf.2.filename p habs hnorm hp
+          rw [mkdirs_host env h' base p r (Or.inl this.2)]
+      · split
+        · rfl
+        · split
+          · rfl
+          · rename_i p hp
+            have hin := safeJoin_inside cwd base nf.2.filename p habs hnorm hp
+            rw [mkdirs_host env h' base _ r (dirname_pathOk hin.2)]
+            rw [writeFile_host env h' base p _ _ hin.2]
 
 theorem extractFolder_host (env : Env) (h' : Str → Option (Option (List Nat))) (cwd base : Str) (data : List Nat)
-    (fs : List FileInfo) (r : Run) (habs : isAbs base = true) (hnorm : normpath base = base) :
-    extractFolder (withHost env h') cwd base data fs r = extractFolder env cwd base data fs r := by
+    (w : Wanted) (fs : List (Nat × FileInfo)) (r : Run) (habs : isAbs base = true) (hnorm : normpath base = base) :
+    extractFolder (withHost env h') cwd base data w fs r = extractFolder env cwd base data w fs r := by
   unfold extractFolder
-  have : (fun st f => extractOne (withHost env h') cwd base data f st) = (fun st f => extractOne env cwd base data f st) := by
-    funext st f; exact extractOne_host env h' cwd base data f st habs hnorm
+  have : (fun st nf => extractOne (withHost env h') cwd base data w nf st) = (fun st nf => extractOne env cwd base data w nf st) := by
+    funext st nf; exact extractOne_host env h' cwd base data w nf st habs hnorm
   rw [this]
 
 theorem extractAll_host (env : Env) (h' : Str → Option (Option (List Nat))) (cwd base : Str) (files : List FileInfo)
-    (fmap : List (Nat × Nat)) (fd : List (Option (List Nat))) (k : Nat) (fl : List Nat) (r : Run)
+    (fmap : List (Nat × Nat)) (fd : List (Option (List Nat))) (w : Wanted) (k : Nat) (fl : List Nat) (r : Run)
     (habs : isAbs base = true) (hnorm : normpath base = base) :
-    extractAll (withHost env h') cwd base files fmap fd k fl r = extractAll env cwd base files fmap fd k fl r := by
+    extractAll (withHost env h') cwd base files fmap fd w k fl r = extractAll env cwd base files fmap fd w k fl r := by
   induction fl generalizing k r with
   | nil => rfl
   | cons x rest ih =>
@@ -757,9 +763,11 @@ theorem extractAll_host (env : Env) (h' : Str → Option (Option (List Nat))) (c
       split
       · exact ih _ _
       · split
-        · rfl
-        · rw [extractFolder_host env h' cwd base _ _ r habs hnorm]
-          exact ih _ _
+        · exact ih _ _
+        · split
+          · rfl
+          · rw [extractFolder_host env h' cwd base _ w _ r habs hnorm]
+            exact ih _ _
 
 theorem writeEmpty_host (env : Env) (h' : Str → Option (Option (List Nat))) (cwd base : Str) (f : FileInfo) (r : Run)
     (habs : isAbs base = true) (hnorm : normpath base = base) :
@@ -776,14 +784,23 @@ theorem writeEmpty_host (env : Env) (h' : Str → Option (Option (List Nat))) (c
       rw [writeFile_host env h' base p _ _ hin.2]
 
 theorem extractAllFull_host (env : Env) (h' : Str → Option (Option (List Nat))) (cwd base : Str) (files : List FileInfo)
-    (fmap : List (Nat × Nat)) (fd : List (Option (List Nat))) (fl : List Nat) (r : Run)
+    (fmap : List (Nat × Nat)) (fd : List (Option (List Nat))) (fl : List Nat) (w : Wanted) (r : Run)
     (habs : isAbs base = true) (hnorm : normpath base = base) :
-    extractAllFull (withHost env h') cwd base files fmap fd fl r = extractAllFull env cwd base files fmap fd fl r := by
+    extractAllFull (withHost env h') cwd base files fmap fd fl w r = extractAllFull env cwd base files fmap fd fl w r := by
   unfold extractAllFull extractEmpties
-  rw [extractAll_host env h' cwd base files fmap fd 0 fl r habs hnorm]
-  have : (fun r f => writeEmpty (withHost env h') cwd base f r) = (fun r f => writeEmpty env cwd base f r) := by
-    funext r f; exact writeEmpty_host env h' cwd base f r habs hnorm
+  rw [extractAll_host env h' cwd base files fmap fd w 0 fl r habs hnorm]
+  have : (fun r (nf : Nat × FileInfo) => writeEmpty (withHost env h') cwd base nf.2 r) = (fun r nf => writeEmpty env cwd base nf.2 r) := by
+    funext r nf; exact writeEmpty_host env h' cwd base nf.2 r habs hnorm
   rw [this]
+
+theorem mem_indexed {α} (l : List α) (n i : Nat) (x : α) (h : (i, x) ∈ indexed l n) : x ∈ l := by
+  induction l generalizing n with
+  | nil => simp [indexed] at h
+  | cons a r ih =>
+    simp only [indexed, List.mem_cons, Prod.mk.injEq] at h
+    rcases h with ⟨_, e⟩ | h
+    · simp [e]
+    · exact List.mem_cons_of_mem _ (ih _ h)
 
 theorem readBack_host (env : Env) (h' : Str → Option (Option (List Nat))) (lim : Limits) (cwd base : Str) (fs : Overlay)
     (f : FileInfo) (habs : isAbs base = true) (hnorm : normpath base = base) :
